@@ -23,6 +23,12 @@ pub enum ParserBox {
 }
 
 impl ParserBox {
+    pub fn as_dyn(&self) -> &dyn BufferParser {
+        match self {
+            ParserBox::Ansi(p) => p,
+            ParserBox::Other(p) => p.as_ref(),
+        }
+    }
     pub fn get(&mut self) -> &mut dyn BufferParser {
         match self {
             ParserBox::Ansi(p) => p,
@@ -304,6 +310,10 @@ pub fn run_term(trace: &Trace) -> Outcome {
     buf.is_terminal_buffer = true;
     if cfg.emu == "viewdata" || cfg.emu == "mode7" {
         // fixed pages start with all rows present, as the engine's own fixtures do
+        buf = Buffer::create((cfg.w.max(1), cfg.h.max(1)));
+        buf.is_terminal_buffer = true;
+    } else if cfg.prefilled {
+        // a front end may just as well start from a buffer whose rows all exist
         buf = Buffer::create((cfg.w.max(1), cfg.h.max(1)));
         buf.is_terminal_buffer = true;
     } else {
